@@ -22,6 +22,15 @@ class MidiTrack:
 
         return track
 
+    @staticmethod
+    def _midi_channel(msg) -> int:
+        # Notes keep their channel, otherwise a pitch released on one channel and struck on another at the same tick is
+        # read back as a single, longer note
+        channel = getattr(msg, "channel", None)
+        if isinstance(channel, int) and 0 <= channel <= 15:
+            return channel
+        return 0
+
     def to_mido_track(self) -> mido.MidiTrack:
         track = mido.MidiTrack()
 
@@ -36,11 +45,12 @@ class MidiTrack:
 
             if msg.message_type == MessageType.NOTE_ON:
                 track.append(
-                    mido.Message("note_on", note=msg.note, velocity=msg.velocity if msg.velocity is not None else 127,
-                                 time=int(time_buffer)))
+                    mido.Message("note_on", channel=self._midi_channel(msg), note=msg.note,
+                                 velocity=msg.velocity if msg.velocity is not None else 127, time=int(time_buffer)))
                 time_buffer = 0
             elif msg.message_type == MessageType.NOTE_OFF:
-                track.append(mido.Message("note_off", note=msg.note, velocity=0, time=int(time_buffer)))
+                track.append(mido.Message("note_off", channel=self._midi_channel(msg), note=msg.note, velocity=0,
+                                          time=int(time_buffer)))
                 time_buffer = 0
             elif msg.message_type == MessageType.WAIT:
                 pass
